@@ -243,29 +243,8 @@ def check(run: Run) -> None:
         run.ob("T6", f"orientation:{kind}")
         if not same(det, prod):
             run.violate("T6", f"{CS}:orientation:{kind}", mod, fn, f"the Jacobian determinant of the {kind.lower()} table ({det!r}) is not s*h1*h2*h3 with s = {sign}")
-    # ---- T4
-    w = World(run.src)
-    expected = {"CartesianPoint": "CARTESIAN", "SpherePoint": "SPHERICAL", "CylinderPoint": "CYLINDRICAL"}
-    for modname, path in (("symplyphysics.core.fields.scalar_field", "ScalarField.__call__"), ("symplyphysics.core.fields.vector_field", "VectorField.__call__")):
-        f = Fn(w, modname, path)
-        tests = {}
-        for n in f.cfg.stmt_nodes():
-            if n.kind == "test" and isinstance(n.ast, ast.If) and isinstance(n.ast.test, ast.BoolOp) and isinstance(n.ast.test.op, ast.And) and len(n.ast.test.values) == 2:
-                a, b = n.ast.test.values
-                if isinstance(a, ast.Call) and dotted(a.func) == "isinstance" and dotted(a.args[0]) == "point_" and isinstance(b, ast.Compare) and isinstance(b.ops[0], ast.NotEq) \
-                        and (dotted(b.left) or "").endswith("coord_system_type") and len(n.ast.body) == 1 and isinstance(n.ast.body[0], ast.Raise):
-                    tests[dotted(a.args[1])] = ((dotted(b.comparators[0]) or "").split(".")[-1], n)
-        evals = [(n, c) for n in f.cfg.stmt_nodes() for c in node_calls(n) if dotted(c.func) == "self._point_function" and [dotted(a) for a in c.args] == ["point_"]]
-        run.require(bool(evals), f"{path} no longer evaluates self._point_function(point_)")
-        for pc, kind in expected.items():
-            run.ob("T4", f"{path}:{pc}")
-            if pc not in tests or tests[pc][0] != kind:
-                run.violate("T4", f"{modname}:{path}:{pc}", f.mod, f.fn, f"{path} does not refuse a {pc} when the field's system is not {kind.lower()}"
-                            + (f" (it tests against {tests[pc][0]})" if pc in tests else ""))
-            else:
-                for n, c in evals:
-                    if not f.cfg.dominated_by(n, lambda y, t=tests[pc][1]: y is t):
-                        run.violate("T4", f"{modname}:{path}:{pc}:bypass", f.mod, c, f"the field function can be evaluated without the {pc} / {kind.lower()} check")
+    # ---- T4 (by evaluation): a field whose point function is a callable is applied to a point of every class under every system kind
+    _t4(run)
     # ---- T5 / T7 / T8: the substitution steps, evaluated abstractly (whatever their code shape)
     _substitutions(run, tables)
 
@@ -338,6 +317,104 @@ class SubsReader(PyReader):
         if f == "express" and n.args:
             raise _Stop(("expr", self.ev(n.args[0], env, fns)))
         return NotImplemented
+
+
+class _KPoint:
+    """a point of one of the library's point classes"""
+
+    def __init__(self, cls: str):
+        self.cls = cls
+
+
+class _CallableField:
+
+    def __init__(self, system: Sys):
+        self.system = system
+
+
+class T4Reader(PyReader):
+
+    def __init__(self, module, where):
+        super().__init__(module, where)
+        self.applied = []
+
+    def hook_attr(self, base, attr, n):
+        if isinstance(base, _CallableField):
+            if attr in ("_point_function", "field_function"):
+                return ("point-function", )
+            if attr in ("_coordinate_system", "coordinate_system"):
+                return base.system
+        return NotImplemented
+
+    def is_instance(self, v, names, n):
+        if isinstance(v, _KPoint):
+            lattice = {"Point": {"Point"}, "CartesianPoint": {"CartesianPoint", "Point"}, "SpherePoint": {"SpherePoint", "Point"}, "CylinderPoint": {"CylinderPoint", "Point"}}
+            return bool(lattice[v.cls] & set(names))
+        self.fail(n, "isinstance outside the modelled classes")
+
+    def hook_call(self, n, env, fns):
+        f = dotted(n.func) or ""
+        name = f.split(".")[-1]
+        if name == "isinstance" and len(n.args) == 2:
+            v = self.ev(n.args[0], env, fns)
+            spec = n.args[1]
+            if isinstance(spec, ast.Name) and spec.id in env:
+                sv = env[spec.id]
+                names = [x[1] for x in (sv if isinstance(sv, list) else [sv]) if isinstance(x, tuple) and x and x[0] == "class"]
+            else:
+                names = self.class_names(spec)
+            return self.is_instance(v, names, n)
+        if name == "callable" and len(n.args) == 1:
+            return self.ev(n.args[0], env, fns) == ("point-function", )
+        if name == "type" and len(n.args) == 1:
+            v = self.ev(n.args[0], env, fns)
+            if isinstance(v, _KPoint):
+                return ("class", v.cls)
+        if name == "Vector" and n.args:
+            return ("vector", self.ev(n.args[0], env, fns))
+        if isinstance(n.func, ast.Attribute) and n.func.attr in ("_point_function", "field_function"):
+            base = self.ev(n.func.value, env, fns)
+            if isinstance(base, _CallableField):
+                self.applied.append([self.ev(a, env, fns) for a in n.args])
+                return ("field-value", )
+        if isinstance(n.func, ast.Name) and n.func.id in env and env[n.func.id] == ("point-function", ):
+            self.applied.append([self.ev(a, env, fns) for a in n.args])
+            return ("field-value", )
+        return NotImplemented
+
+    def global_value(self, n):
+        if isinstance(n, ast.Name) and n.id in ("CartesianPoint", "SpherePoint", "CylinderPoint", "Point") and n.id not in self.functions:
+            return ("class", n.id)
+        return super().global_value(n)
+
+    def hook_attr_class(self, v, attr):
+        return NotImplemented
+
+
+def _t4(run: Run) -> None:
+    expected = {"CartesianPoint": "CARTESIAN", "SpherePoint": "SPHERICAL", "CylinderPoint": "CYLINDRICAL"}
+    for modname, cls in (("symplyphysics.core.fields.scalar_field", "ScalarField"), ("symplyphysics.core.fields.vector_field", "VectorField")):
+        m = run.src.need(modname)
+        mm = _methods_module(m, cls)
+        for pc in ("CartesianPoint", "SpherePoint", "CylinderPoint", "Point"):
+            for kind in SYSTEMS:
+                run.ob("T4", f"{cls}.__call__:{pc}:{kind}")
+                R = T4Reader(mm, f"{cls}.__call__[{pc} in {kind}]")
+                pt = _KPoint(pc)
+                try:
+                    R.call("__call__", [_CallableField(Sys("F", kind)), pt])
+                    raised = None
+                except Raised as r:
+                    raised = r
+                must_refuse = pc in expected and expected[pc] != kind
+                if must_refuse and (raised is None or R.applied):
+                    run.violate("T4", f"{modname}:{cls}.__call__:{pc}", m, m.tree,
+                                f"{cls}.__call__ does not refuse a {pc} when the field's system is {kind.lower()}"
+                                + (" before evaluating the field function" if R.applied else "") + f" (the point class belongs to {expected[pc].lower()} systems)")
+                elif not must_refuse and (raised is not None or len(R.applied) != 1 or R.applied[0] != [pt]):
+                    run.violate("T4", f"{modname}:{cls}.__call__:{pc}:{kind}:applies", m, m.tree,
+                                f"{cls}.__call__ does not evaluate the field function at a {pc} in a {kind.lower()} system "
+                                f"({'raises ' + raised.exc if raised is not None else 'applications: ' + str(len(R.applied))})")
 
 
 def _methods_module(mod, cls_name: str) -> ast.Module:
